@@ -313,8 +313,31 @@ Record sealst := mk_seal { sl_file : file c; sl_pred : bytes -> Prop; sl_key : s
 
 Definition seal_ok (st : sealst) : Prop := opens_exactly (sl_file st) (sl_pred st) (sl_key st).
 
-(* only a successful import and a create on a free path re-seal (under the passphrase THEY are given) *)
-Definition seal_step (st : sealst) (op : hop) : sealst :=
+(* a file nothing can be got out of: deleted, not parsing (every truncation, the empty file, a flipped
+   structural byte), or holding ciphertext bytes no key opens (what flipped ciphertext bytes give, ideal AEAD) *)
+Definition dead_file (f : file c) : Prop :=
+  match f with
+  | FAbsent | FBadJson => True
+  | FData d => unopenable c (kd_ct c d)
+  end.
+
+Lemma dead_file_never_opens : forall f p, dead_file f ->
+  (exists e, load c f p = Err e) /\ (exists e, export c f p = Err e).
+Proof.
+  intros f p D. destruct f as [| |d]; cbn [load export]; [split; eexists; reflexivity|split; eexists; reflexivity|].
+  cbn [dead_file] in D.
+  assert (E : exists e, decrypt_data c d p = Err e).
+  { unfold decrypt_data. destruct (derive_key c d p) as [k|e|] eqn:K.
+    - destruct (Nat.eqb (length (kd_nonce c d)) 12); [|eexists; reflexivity].
+      rewrite (D k (kd_nonce c d)). eexists; reflexivity.
+    - eexists; reflexivity.
+    - exfalso. exact (derive_key_no_panic c d p K). }
+  destruct E as [e E]. rewrite E. split; exists e; reflexivity.
+Qed.
+
+(* only a successful import and a create on a free path re-seal (under the passphrase THEY are given);
+   a fault that kills the file leaves it opening with NO passphrase *)
+Definition seal_step (st : sealst) (op : hop c) : sealst :=
   let f' := fst (hstep c (sl_file st) op) in
   match op with
   | HImport k p _ _ =>
@@ -327,24 +350,26 @@ Definition seal_step (st : sealst) (op : hop) : sealst :=
       | FAbsent => mk_seal f' (eq p) sg
       | _ => mk_seal f' (sl_pred st) (sl_key st)
       end
+  | HDamage _ => mk_seal f' (fun _ => False) (sl_key st)   (* after a fault that kills the file NO passphrase opens it *)
   | _ => mk_seal f' (sl_pred st) (sl_key st)
   end.
 
-Fixpoint seal_trace (st : sealst) (ops : list hop) : list sealst :=
+Fixpoint seal_trace (st : sealst) (ops : list (hop c)) : list sealst :=
   match ops with
   | [] => []
   | op :: r => seal_step st op :: seal_trace (seal_step st op) r
   end.
 
 (* what the code guarantees of its own random draws and key generation *)
-Definition hop_wf (op : hop) : Prop :=
+Definition hop_wf (op : hop c) : Prop :=
   match op with
   | HImport _ _ salt nonce => salt <> [] /\ length nonce = 12
   | HCreate sg _ salt nonce => wf_signer sg /\ salt <> [] /\ length nonce = 12
+  | HDamage f' => dead_file f'
   | _ => True
   end.
 
-Definition hop_reads (op : hop) : Prop :=
+Definition hop_reads (op : hop c) : Prop :=
   match op with HLoad _ | HExport _ => True | _ => False end.
 
 (* loads and exports — any number, any passphrases, right or wrong — leave the file as it is *)
@@ -365,10 +390,35 @@ Proof. intros ops f p H. destruct (readonly_history_keeps_file ops f H) as [_ E]
 Theorem failed_step_keeps_file : forall (f : file c) op e,
   snd (hstep c f op) = RDone (Err e) -> fst (hstep c f op) = f.
 Proof.
-  intros f op e. destruct op as [p|p|k p sa n|sg p sa n]; cbn [hstep]; try discriminate.
+  intros f op e. destruct op as [p|p|k p sa n|sg p sa n|f']; cbn [hstep]; try discriminate.
   - destruct (import c k p sa n); cbn [fst snd]; try discriminate; reflexivity.
   - destruct f; cbn [fst snd]; try discriminate; reflexivity.
 Qed.
+
+(* the state of the path after a history is what the LAST write or fault left: histories compose *)
+Lemma hfile_app : forall a b (f : file c), hfile c f (a ++ b) = hfile c (hfile c f a) b.
+Proof. intros a b f. unfold hfile. apply fold_left_app. Qed.
+
+(* WHATEVER happened on the path before (creates, imports = key rotations under the same or other passphrases,
+   loads, exports, earlier faults), once a fault has left a dead file every later load and export — with ANY
+   passphrase, those that opened earlier contents of the path included — reports an error and leaves the
+   dead file as it is.  No hypothesis on the cryptography. *)
+Theorem damaged_file_never_opens : forall before after (f bad : file c),
+  dead_file bad -> Forall hop_reads after ->
+  Forall (fun fr => fst fr = bad /\ exists e, snd fr = RSigner (Err e) \/ snd fr = RBytes (Err e))
+         (hrun c (hfile c f (before ++ [HDamage bad])) after).
+Proof.
+  intros before after f bad D R. rewrite hfile_app. change (hfile c (hfile c f before) [HDamage bad]) with bad.
+  induction after as [|op r IH]; cbn [hrun]; [constructor|].
+  inversion R as [|? ? Hop Hr]; subst.
+  destruct (dead_file_never_opens bad) with (p := match op with HLoad p | HExport p => p | _ => [] end) as [[e1 L] [e2 E]]; [exact D|].
+  destruct op as [p|p|k p sa n|sg p sa n|f']; cbn [hop_reads] in Hop; try contradiction; cbn [hstep fst snd].
+  - constructor; [split; [reflexivity|exists e1; left; rewrite L; reflexivity]|exact (IH Hr)].
+  - constructor; [split; [reflexivity|exists e2; right; rewrite E; reflexivity]|exact (IH Hr)].
+Qed.
+
+(* ... and the only ways back to a usable path are the package's own writes: an import, or (after a deletion)
+   a create; each seals under the passphrase IT is given (see seal_step_ok) *)
 
 Hypothesis I : ideal c.
 
@@ -436,7 +486,7 @@ Proof. split; [exact create_opens_exactly|exact legacy_opens_exactly]. Qed.
 Lemma seal_step_ok : forall st op, hop_wf op -> seal_ok st -> seal_ok (seal_step st op).
 Proof.
   intros [f P s] op W H. unfold seal_ok, seal_step in *. cbn [sl_file sl_pred sl_key] in *.
-  destruct op as [p|p|k p sa n|sg p sa n]; cbn [hstep fst].
+  destruct op as [p|p|k p sa n|sg p sa n|f']; cbn [hstep fst].
   - exact H.
   - exact H.
   - destruct W as [Hs Hn]. unfold import. destruct (unmarshal_priv k) as [k'|] eqn:U.
@@ -444,6 +494,8 @@ Proof.
     + cbn [fst sl_file sl_pred sl_key]. exact H.
   - destruct W as (Wf & Hs & Hn). destruct f; cbn [fst sl_file sl_pred sl_key]; try exact H.
     apply save_opens_exactly; assumption.
+  - cbn [hop_wf] in W. cbn [sl_file sl_pred sl_key]. split; [exact (proj1 H)|].
+    intros p. split; [intros []|intros _; apply dead_file_never_opens; exact W].
 Qed.
 
 (* after EVERY step of ANY history (loads, exports, imports, creates; right and wrong passphrases) the file
@@ -461,7 +513,7 @@ Lemma seal_trace_files : forall ops st,
 Proof.
   induction ops as [|op r IH]; intros st; cbn [seal_trace hrun map]; [reflexivity|].
   assert (E : sl_file (seal_step st op) = fst (hstep c (sl_file st) op)).
-  { unfold seal_step. destruct op as [p|p|k p sa n|sg p sa n]; cbn [sl_file]; try reflexivity.
+  { unfold seal_step. destruct op as [p|p|k p sa n|sg p sa n|f']; cbn [sl_file]; try reflexivity.
     - destruct (unmarshal_priv k); reflexivity.
     - destruct (sl_file st); reflexivity. }
   rewrite E at 1. f_equal. rewrite IH, E. reflexivity.
@@ -489,6 +541,9 @@ Proof.
 Qed.
 
 End Histories.
+
+Arguments hop_reads {c} op.
+Arguments hop_wf {c} op.
 
 (* the legacy format looks at the first 32 bytes of the passphrase only: two different passphrases open
    exactly the same salt-less files, whatever the cryptography *)
